@@ -95,6 +95,7 @@ FUNCS = {
     'dictcount': _dictcount,
     'sumcount': lambda a, x: (a[0] + x, a[1] + 1),
     'keeplast': lambda a, x: x,
+    'mulsign': lambda a, x: a * float((x % 10) - 1),     # running product over {-1, 0, 1}: reaches 0.0 and then -0.0
     # terminators
     't_len': lambda a: len(a),
     't_neg': lambda a: -a,
@@ -109,6 +110,7 @@ SEEDS = {
     'nested': lambda: ([], 0),
     'emptydict': lambda: {},
     'pair00': lambda: (0, 0),
+    '1.0': lambda: 1.0,
 }
 
 
